@@ -15,6 +15,11 @@ CHECKS = {
     text="TLC runs the transcribed shuffle planners stage by stage for every (method, n_in, n_out, max_branch, selection of output partitions) within the bound and evaluates the routing postcondition on a universal dataset; for every one of those cases the layer the real shuffle node emits is abstracted and its meaning (spec/ShuffleOps.tla) must route every row exactly once to the partition its routing number names, must equal what the real graph computed, and the real execution must not fail. Co-location across frames with different key dtypes/placements is validated from the partition numbers real shuffles assigned. Model checking fits: routing is digit arithmetic over small integers and the failures are stage/subset alignment cases inside the enumerated scope.",
     note="Trusted: TLC; contracts of dask.dataframe.shuffle helpers as written in spec/ShuffleOps.tla (bound by PlanBinding on every trace); harness abstraction of layers (harness/vx/c12.py). p2p shuffle is not bound (no `distributed`). Bounded: n_in <= 6 (quick) / 9 (thorough), max_branch in 2..4.",
     design="5.2 C12"),
+ "C11": dict(
+    technique="TLA+ model of the partition-selection push-down rule model-checked by TLC (rule as coded vs positional-only); TLC-enumerated (operator chain, selection) cases replayed on 12 data sources; traces of partitions[...]/get_partition/to_delayed/head/tail validated by TLC against the expected selection of the unoptimized partitions",
+    text="TLC explores every chain of operator kinds (positional, broadcast, shifted, wide, partition-filtered) x selection and checks that pushing the selection one operator down commutes; those abstract cases are made concrete on every kind of source and each selection's result is validated by TLC against the selection computed from the partitions of the same collection lowered without optimization (first-n-of-first-k / last-n-of-last for head/tail, no new error). Model checking suits the rule (small finite chain/selection space); the binding is trace validation of observed partitions.",
+    note="Trusted: TLC, pandas equality of row representations (rows numbered by index label + values), the unoptimized lowering as reference. Row order inside partitions is not compared below disk shuffles / joins. Known finding F20 (selection above a fused multi-file read) is suppressed only for cases flagged fused_io_under_selection.",
+    design="5.2 C11"),
 }
 
 def main():
